@@ -311,6 +311,7 @@ def _order(repo, rep):
               construct="decl-ignorecase")
     _declaration_scope(repo, rep)
     _meta_grammar(repo, rep)
+    _meta_group_roles(repo, rep)
     dv = repo.cls("chameleon.template.BaseTemplate").attrs.get(
         "default_encoding")
     rep.check(isinstance(dv, ast.Constant) and dv.value == "utf-8", "R17.1",
@@ -498,8 +499,15 @@ def _declaration_scope(repo, rep):
         bounded = len(c.args) >= 3 or (
             c.args and isinstance(L.inline_locals(xe.node, c.args[0]),
                                   ast.Subscript))
-        ok = bounded and ("find(b'?>'" in t or "index(b'?>'" in t or
-                          "partition(b'?>')" in t or "split(b'?>'" in t)
+        # the FIRST '?>' ends the declaration (find / index / partition /
+        # split(.., 1)[0]), not the last one of the document
+        firsts = [x for x in ast.walk(full) if isinstance(x, ast.Call)
+                  and isinstance(x.func, ast.Attribute) and x.args
+                  and isinstance(x.args[0], ast.Constant)
+                  and x.args[0].value == b"?>"]
+        ok = bounded and bool(firsts) and all(
+            x.func.attr in ("find", "index", "partition", "split")
+            for x in firsts)
     rep.check(ok, "R17.1", xe.qualname, "the declared encoding is looked for "
               "inside the XML declaration only (up to the first '?>')",
               construct="declaration-only", where=L.where(xe), detail=detail)
@@ -599,3 +607,117 @@ def _meta_grammar(repo, rep):
               "unquoted charset value ends at white space, '/' or '>' (it "
               "cannot run on into the document)",
               construct="meta-charset-class", detail=str(bad))
+    # white space around '=' and after the ';' of the content value is
+    # optional ("text/html;charset=x" and "text/html; charset = x" are the
+    # same declaration): a white-space repeat next to one of these
+    # punctuation marks has no lower bound
+    ws = rx.CharSet.of(" \t\n\r\f\v")
+    n_sites = 0
+    badws = []
+
+    def is_ws_repeat(item):
+        op, av = item
+        if op not in (C.MAX_REPEAT, C.MIN_REPEAT):
+            return None
+        body = list(av[2])
+        if len(body) == 1 and body[0][0] is C.IN and \
+                ws <= rx.in_set(body[0][1]):
+            return av[0]
+        return None
+    for alt in alternatives(tree):
+        flat = []
+
+        def flatten(items):
+            for op, av in items:
+                if op is C.SUBPATTERN:
+                    flatten(list(av[3]))
+                else:
+                    flat.append((op, av))
+        flatten(alt)
+        for i, it in enumerate(flat):
+            mn = is_ws_repeat(it)
+            if mn is None:
+                continue
+            prev = flat[i - 1] if i else None
+            nxt = flat[i + 1] if i + 1 < len(flat) else None
+            near = [x for x in (prev, nxt) if x is not None
+                    and x[0] is C.LITERAL and chr(x[1]) == "="]
+            after_semi = prev is not None and prev[0] is C.LITERAL and \
+                chr(prev[1]) == ";"
+            if near or after_semi:
+                n_sites += 1
+                if mn != 0:
+                    badws.append("at least %d white space %s" % (
+                        mn, "after ';'" if after_semi else "next to '='"))
+    rep.check(n_sites >= 6 and not badws, "R17.1", U + "RE_META",
+              "white space around '=' and behind the ';' of the content "
+              "value is optional (%d places)" % n_sites,
+              construct="meta-optional-space", detail="; ".join(badws))
+
+
+def _meta_group_roles(repo, rep):
+    """detect_encoding returns (content type, charset): the two components
+    are put together from the capturing groups of RE_META that stand behind
+    'content=' and behind 'charset=' respectively -- in both attribute
+    orders (groups 1,2 and 3,4)."""
+    from .. import rx
+    C = rx.C
+    rc = repo.const("chameleon.utils", "RE_META")
+    tree = list(rx.parse(rc.pattern, rc.flags))
+    roles = {}
+
+    def walk(items, word):
+        """word: the literal text seen since the last capturing group"""
+        for op, av in items:
+            if op is C.LITERAL:
+                word[0] += chr(av).lower()
+            elif op is C.SUBPATTERN:
+                if av[0] is not None:
+                    w = word[0]
+                    k = max(w.rfind("charset"), w.rfind("content"))
+                    roles[av[0]] = "charset" if k >= 0 and \
+                        w[k:].startswith("charset") else (
+                            "type" if k >= 0 else "?")
+                    word[0] = ""
+                walk(av[3], word)
+            elif op in (C.MAX_REPEAT, C.MIN_REPEAT):
+                walk(av[2], word)
+            elif op is C.BRANCH:
+                for alt in av[1]:
+                    walk(alt, [word[0]])
+    walk(tree, [""])
+    f = repo.func(U + "detect_encoding")
+    want_t = sorted(g - 1 for g, r in roles.items() if r == "type")
+    want_c = sorted(g - 1 for g, r in roles.items() if r == "charset")
+    if len(want_t) < 2 or len(want_c) < 2:
+        raise AnalysisError("RE_META group roles not understood: %s" % roles)
+    ok = False
+    detail = "no return of a pair taken from match.groups()"
+    for r in ast.walk(f.node):
+        if isinstance(r, ast.Return) and isinstance(r.value, ast.Tuple) \
+                and len(r.value.elts) == 2:
+            comps = []
+            for e in r.value.elts:
+                idx = sorted(
+                    n.slice.value for n in ast.walk(e)
+                    if isinstance(n, ast.Subscript)
+                    and isinstance(n.slice, ast.Constant)
+                    and isinstance(n.slice.value, int)
+                    and src(n.value) == "groups")
+                # match.group(k) spelling
+                idx += sorted(
+                    n.args[0].value - 1 for n in ast.walk(e)
+                    if isinstance(n, ast.Call) and isinstance(
+                        n.func, ast.Attribute) and n.func.attr == "group"
+                    and n.args and isinstance(n.args[0], ast.Constant)
+                    and isinstance(n.args[0].value, int))
+                comps.append(sorted(idx))
+            if comps[0] or comps[1]:
+                ok = comps[0] == want_t and comps[1] == want_c
+                detail = "returns groups %s / %s; content type groups %s, " \
+                         "charset groups %s" % (comps[0], comps[1], want_t,
+                                                want_c)
+    rep.check(ok, "R17.1", f.qualname, "the reported content type is taken "
+              "from the groups behind 'content=', the charset from the "
+              "groups behind 'charset=', whichever attribute order matched",
+              construct="meta-group-roles", where=L.where(f), detail=detail)
